@@ -14,7 +14,9 @@ GEN_GROUPS = ['aipw']
 RULE = ('random categorical frames with positivity (binary and normal outcomes); one nuisance side saturated, the other drawn '
         'from: intercept-only, main-effects-only, dropped covariates, ordinal code as linear term, or an arbitrary table of '
         'values per stratum (and arm) injected through custom_model; both-wrong runs counted to witness that the estimate '
-        'does move; non-trivial = distinct (frame, estimator, which side, misspecification)')
+        'does move; plus TMLE on frames with missing outcomes (every cell keeps >= 2 observed) and a missing-outcome model: '
+        'treatment AND missing models saturated with a wrong outcome model, and the reverse; '
+        'non-trivial = distinct (frame, estimator, which side, misspecification)')
 TRUSTED = ['statsmodels GLM: saturated fits return cell means/proportions (validated per case); the TMLE fluctuation GLM solves '
            'its two score equations (validated per case: |score| <= 1e-6 n)',
            'patsy design matrices; sklearn-style custom_model protocol (fit/predict/predict_proba) as zEpid calls it']
@@ -37,8 +39,26 @@ def mis_out(rng, meta, nstrata, binary):
     return ('garbage', [round(rng.uniform(0, 20), 2) for _ in range(nstrata)], [round(rng.uniform(0, 20), 2) for _ in range(nstrata)])
 
 
-def fit_one(est, df, meta, tside, oside):
-    """tside/oside: ('sat',) | ('formula', rhs) | ('garbage', table[, table0])"""
+def add_missing(rng, df, binary):
+    """outcomes set to NaN so that every (stratum, arm) cell keeps >= 2 observed outcomes (both values when binary)"""
+    df = df.copy()
+    for _, idx in df.groupby(['S', 'A']).groups.items():
+        idx = list(idx)
+        rng.shuffle(idx)
+        keep = []
+        if binary:
+            keep = [next(i for i in idx if df.at[i, 'Y'] == 1.0), next(i for i in idx if df.at[i, 'Y'] == 0.0)]
+        else:
+            keep = idx[:2]
+        rest = [i for i in idx if i not in keep]
+        for i in rest[:rng.randint(0, len(rest))]:
+            df.at[i, 'Y'] = float('nan')
+    return df
+
+
+def fit_one(est, df, meta, tside, oside, mside=None):
+    """tside/oside: ('sat',) | ('formula', rhs) | ('garbage', table[, table0]); mside (missing-outcome model, TMLE):
+    None | ('sat',) | ('formula', rhs)"""
     from zepid.causal.doublyrobust import AIPTW, TMLE
     binary = meta['outcome'] == 'binary'
     if est == 'AIPTW':
@@ -51,6 +71,8 @@ def fit_one(est, df, meta, tside, oside):
         o.exposure_model(tside[1], print_results=False)
     else:
         o.exposure_model('S', custom_model=ec.Garbage(tside[1]), print_results=False)
+    if mside is not None:
+        o.missing_model(meta['sat_AL'] if mside[0] == 'sat' else mside[1], print_results=False)
     if oside[0] == 'sat':
         o.outcome_model(meta['sat_AL'], print_results=False)
     elif oside[0] == 'formula':
@@ -117,6 +139,20 @@ def gen_runs(ctx, n_frames):
                 if est == 'TMLE' and not binary and os_[0] == 'garbage':
                     os_ = ('formula', 'A')      # TMLE's continuous path needs predictions on its unit scale
                 runs.append({'df': df, 'meta': meta, 'est': est, 'which': which, 't': ts, 'o': os_})
+    # missing outcomes with a missing-outcome model (TMLE): the weight side is the treatment AND the missing model
+    for i in range(max(2, n_frames // 2)):
+        otype = ['binary', 'normal'][i % 2]
+        df, meta = datagen.cat_frame(ctx.rng, outcome=otype, cell=(4, 7))
+        df = add_missing(ctx.rng, df, otype == 'binary')
+        meta = dict(meta, missing=True)
+        ns = meta['n_strata']
+        mo = mis_out(ctx.rng, meta, ns, otype == 'binary')
+        if mo[0] == 'garbage' and otype != 'binary':
+            mo = ('formula', 'A')
+        mwrong = ('formula', ctx.rng.choice(['1', 'A'] + meta['sub_models']))
+        for which, ts, ms, os_ in (('weights-saturated+missing', ('sat',), ('sat',), mo),
+                                   ('outcome-saturated+missing', mis_treat(ctx.rng, meta, ns), mwrong, ('sat',))):
+            runs.append({'df': df, 'meta': meta, 'est': 'TMLE', 'which': which, 't': ts, 'o': os_, 'm': ms})
     return runs
 
 
@@ -124,7 +160,7 @@ def run_runs(ctx, fails, runs):
     exprs, outs = [], []
     for rn in runs:
         try:
-            out = fit_one(rn['est'], rn['df'], rn['meta'], rn['t'], rn['o'])
+            out = fit_one(rn['est'], rn['df'], rn['meta'], rn['t'], rn['o'], rn.get('m'))
         except Exception as e:   # noqa
             out = {'error': '%s: %s' % (type(e).__name__, str(e)[:120])}
         outs.append(out)
@@ -157,6 +193,10 @@ def run_runs(ctx, fails, runs):
                 exprs.append('(let l := %s in Qflat [std TAll true l; std TAll false l], @nil (list Z))' % raw)
             continue
         raw = ec.coq_rows(out['S'], out['A'], Y)
+        if rn.get('m') is not None:
+            # the model side would need the fitted missingness probabilities; the specification is what is compared here
+            exprs.append('(let l := %s in Qflat [std TAll true l; std TAll false l], @nil (list Z))' % raw)
+            continue
         ann = ec.coq_rows(out['S'], out['A'], Y, g1=g, q1=q1, q0=q0)
         if rn['est'] == 'AIPTW':
             m = 'Qflat [aipw_mean aipw_y1 l; aipw_mean aipw_y0 l]'
@@ -171,7 +211,8 @@ def run_runs(ctx, fails, runs):
         ctx.evaluations += 1
         est, which, meta = rn['est'], rn['which'], rn['meta']
         n = meta['n']
-        payload = {'data': rn['df'].to_dict('list'), 'meta': meta, 'est': est, 'which': which, 't': rn['t'], 'o': rn['o']}
+        payload = {'data': {c: [None if (isinstance(v, float) and v != v) else v for v in rn['df'][c].tolist()] for c in rn['df'].columns},
+                   'meta': meta, 'est': est, 'which': which, 't': rn['t'], 'o': rn['o'], 'm': rn.get('m')}
         ctx.count('%s:%s' % (est, which))
         ctx.count('mis-treat:' + rn['t'][0])
         ctx.count('mis-out:' + rn['o'][0])
@@ -243,6 +284,8 @@ def replay(ctx, payload):
         report(ctx, fails)
         return
     df = pd.DataFrame(payload['data'])
+    df['Y'] = df['Y'].astype(float)
     run_runs(ctx, fails, [{'df': df, 'meta': payload['meta'], 'est': payload['est'], 'which': payload['which'],
-                           't': tuple(payload['t']), 'o': tuple(payload['o'])}])
+                           't': tuple(payload['t']), 'o': tuple(payload['o']),
+                           'm': tuple(payload['m']) if payload.get('m') else None}])
     report(ctx, fails)
